@@ -134,8 +134,8 @@ def capacity_chunk(kind_n):
             # n axioms -> n memory slots; the proof loads the last one
             axioms = [P.App(P.Symbol('f'), P.EVar(i % 200)) if i < 200 else P.App(P.App(P.Symbol('f'), P.EVar(i % 200)), P.EVar(1)) for i in range(n)]
             m = ProofExp(axioms=axioms)
-            m._claims = [axioms[-1]]
-            m._proof_expressions = [m.load_axiom(axioms[-1])]
+            m.add_claim(axioms[-1])
+            m.add_proof_expression(m.load_axiom(axioms[-1]))
         elif kind == 'memo':
             # n distinct small patterns, each built twice (as plugs for metavariables the conclusion does not mention):
             # n candidates for memory slots when the optimising stack is used; 2 axioms occupy slots already
@@ -166,14 +166,14 @@ def capacity_chunk(kind_n):
         out['viol'].append(({'kind': 'capacity_bad_encoding', 'what': kind, 'n': n}, f'{kind}={n}: emitted files are rejected by the reference machine: {r[:2]}'))
         return out
     sm = SymMap()
-    want = [bridge.expand(a) for a in m._axioms]
+    want = [bridge.expand(a) for a in m.get_axioms()]
     ax = [t for k, t in j if k == 'axiom']
     if len(ax) != len(want) or not all(sm.unify(w, d) for w, d in zip(want, ax)):
         out['viol'].append(({'kind': 'capacity_ambiguous', 'what': kind, 'n': n},
                             f'{kind}={n}: the module was encoded but the decoded axioms do not correspond injectively to the declared ones (id wrapped?)'))
     if kind == 'memo':
         pr = [t for k, t in j if k == 'proved']
-        if len(pr) != 1 or rm.show(pr[0]) != rm.show(bridge.expand(m._claims[0])):
+        if len(pr) != 1 or rm.show(pr[0]) != rm.show(bridge.expand(m.get_claims()[0])):
             out['viol'].append(({'kind': 'capacity_ambiguous', 'what': kind, 'n': n}, f'memo={n}: the optimised proof does not prove the claim'))
     if kind == 'memory':
         pr = [t for k, t in j if k == 'proved']
